@@ -13,4 +13,7 @@ pub assume_specification<T: Ord + core::marker::Destruct>[ core::cmp::min::<T> ]
 // ---- TRUSTED: mem::drop consumes its argument (for a `&mut` argument: the borrow ends with its current value)
 pub assume_specification<T>[ core::mem::drop::<T> ](x: T)
     ensures has_resolved(x);
+// ---- TRUSTED: mem::replace stores the new value and returns the old one
+pub assume_specification<T>[ core::mem::replace::<T> ](dest: &mut T, src: T) -> (r: T)
+    ensures *final(dest) == src, r == *old(dest);
 }
